@@ -77,12 +77,14 @@ Record stream := mkS {
   s_q : option qarr;       (* queued_fds *)
   s_pollin : bool;         (* POLLIN requested on io_watcher *)
   s_closing : bool;
-  s_ipc : bool             (* uv_pipe_t with ipc = 1 (reading); false: listening server *)
+  s_ipc : bool;            (* uv_pipe_t with ipc = 1 (reading); false: listening server *)
+  s_rearm : bool           (* variant: false = the current uv_accept (POLLIN re-armed only if (err == 0));
+                              true = the code with notes/C07_fix_accept_rearm.diff (guard dropped) *)
 }.
 
-Definition set_acc (s : stream) (f : Z) := mkS f (s_q s) (s_pollin s) (s_closing s) (s_ipc s).
-Definition set_q (s : stream) (q : option qarr) := mkS (s_acc s) q (s_pollin s) (s_closing s) (s_ipc s).
-Definition set_pollin (s : stream) (b : bool) := mkS (s_acc s) (s_q s) b (s_closing s) (s_ipc s).
+Definition set_acc (s : stream) (f : Z) := mkS f (s_q s) (s_pollin s) (s_closing s) (s_ipc s) (s_rearm s).
+Definition set_q (s : stream) (q : option qarr) := mkS (s_acc s) q (s_pollin s) (s_closing s) (s_ipc s) (s_rearm s).
+Definition set_pollin (s : stream) (b : bool) := mkS (s_acc s) (s_q s) b (s_closing s) (s_ipc s) (s_rearm s).
 
 Inductive ev :=
 | EKeep (f : Z)      (* the kernel handed f to libuv (accept4 / SCM_RIGHTS) and libuv stored it *)
@@ -120,9 +122,9 @@ Definition uv_accept (s : stream) (c : cl) : stream * list ev :=
       let e1 := match c with ClFresh => EClaim (s_acc s) | _ => EDrop (s_acc s) end in
       let s' := match s_q s with
                 | Some a => let (fd, q') := q_pop a in
-                            mkS fd q' (s_pollin s) (s_closing s) (s_ipc s)
-                | None => mkS (-1) None (if err =? 0 then true else s_pollin s)
-                              (s_closing s) (s_ipc s)
+                            mkS fd q' (s_pollin s) (s_closing s) (s_ipc s) (s_rearm s)
+                | None => mkS (-1) None (if (err =? 0) || s_rearm s then true else s_pollin s)
+                              (s_closing s) (s_ipc s) (s_rearm s)
                 end in
       (s', [e1; ERet err])
   end.
@@ -143,7 +145,7 @@ Definition stream_close (s : stream) : stream * list ev :=
             | None => []
             | Some a => map EShutC (firstn (q_offset a) (q_fds a))
             end in
-  (mkS (-1) None false true (s_ipc s), e1 ++ e2).
+  (mkS (-1) None false true (s_ipc s) (s_rearm s), e1 ++ e2).
 
 (* operations a callback (or the program between loop iterations) can perform *)
 Definition exec_simple (kind : Z -> Z) (s : stream) (o : op) : stream * list ev :=
@@ -267,8 +269,10 @@ Fixpoint run (kind : Z -> Z) (x : st) (os : list op) (beh : nat -> list op) : st
   end.
 
 (* a listening server after uv_listen / an ipc pipe after uv_read_start *)
-Definition init (ipc : bool) (ao : list acc) (al : list bool) (oo : list bool) : st :=
-  mkSt (mkS (-1) None true false ipc) true ao al oo 0.
+Definition init_v (rearm : bool) (ipc : bool) (ao : list acc) (al : list bool) (oo : list bool) : st :=
+  mkSt (mkS (-1) None true false ipc rearm) true ao al oo 0.
+(* the current code *)
+Definition init := init_v false.
 
 (* descriptors the stream holds, in the order uv_accept will hand them out *)
 Definition held (s : stream) : list Z :=
